@@ -221,9 +221,15 @@ pub fn gen_cases(profile: &str, seed: u64, b: &Budget) -> Vec<Case> {
                 if idx % 2 == 0 {
                     bps = if idx % 4 == 0 { 24 } else { 20 };
                 }
-                family = ["noise_full", "noise_mid", "cauchy", "riceadv", "altfull", "thresh", "impulse", "sine"]
-                    [(idx / 2) % 8]
+                family = ["noise_full", "nearverb", "cauchy", "riceadv", "nearverb", "altfull", "thresh", "nearverb", "impulse", "noise_mid", "nearverb", "sine"]
+                    [(idx / 2) % 12]
                     .to_string();
+                if family == "nearverb" && profile == "c09" {
+                    // one channel, default parameter range, both order selectors, small blocks
+                    cfg.max_parameter = 14;
+                    cfg.use_lpc = idx % 4 == 0;
+                    bs = [64, 96, 128, 160, 192, 256][(idx / 24) % 6];
+                }
                 cfg.max_parameter = [14, 0, 1, 2, 14, 7, 14, 3][(idx / 3) % 8];
                 cfg.partitions = [Some(16), None, Some(1), Some(64), None][(idx / 5) % 5];
                 if profile == "c13" {
